@@ -120,3 +120,24 @@ void h_small_add(void)
 	VERIF_ASSERT(is_end(X.next) || clear_flag(X.next)->reverse_hash > xr, "plain add: linked after every node of equal reverse hash");
 	VERIF_COVER(removed == 2 && xr == NN); VERIF_COVER(removed == 1 && (in_owner & 14) == 0 && xr >= 2); VERIF_COVER(removed == 0 && xr == 0);
 }
+
+/* ---- C06: a traversal standing on a node that is REPLACED meanwhile ----------------------------------------------------------
+ * the iterator sampled (node, successor) of live node N[j]; then a replace commits: N[j].next = &NEWN | REMOVED | REMOVAL_OWNER with
+ * NEWN.next = the old successor (what _cds_lfht_replace does in one compare-and-swap).  Advancing the iterator must continue from the
+ * successor it sampled: it must not return the replacement (the same key a second time) */
+struct cds_lfht_node NEWN; unsigned long in_j;
+void h_small_next_replaced(void)
+{
+	struct cds_lfht_iter it; unsigned long j, k, want = NN; struct cds_lfht_node *old_next;
+	mk(); VIN(unsigned long, in_j); j = in_j % NN;
+	VERIF_REQUIRE(j >= 1 && j < G_len && G_kind[j] == 1);
+	old_next = N[j].next;					/* live user node: no flag of its own */
+	it.node = &N[j]; it.next = old_next;			/* what first / next / lookup left in the iterator when they returned N[j] */
+	NEWN.reverse_hash = N[j].reverse_hash; NEWN.next = old_next;
+	N[j].next = (struct cds_lfht_node *) ((unsigned long) &NEWN | REMOVED_FLAG | REMOVAL_OWNER_FLAG);
+	cds_lfht_next(&HT, &it);
+	for (k = NN; k-- > j + 1;) if (k < G_len && G_kind[k] == 1) want = k;		/* first live user node behind N[j] in the chain */
+	VERIF_ASSERT(it.node != &NEWN, "next on a replaced node: the replacement of the node the traversal stands on is NOT returned (the traversal would see that key twice)");
+	VERIF_ASSERT(want == NN ? it.node == 0 : it.node == &N[want], "next on a replaced node: continues with the first live node behind the successor it sampled");
+	VERIF_COVER(want != NN); VERIF_COVER(want == NN && j + 1 < G_len);
+}
